@@ -176,3 +176,165 @@ Theorem start_offduty_refuted :
          Sched2.held_ok_b s = true /\ Sched2.held_ok_b s' = false.
 Proof. exact Sched2.start_offduty_refuted. Qed.
 Print Assumptions start_offduty_refuted.
+
+(* ---- Slot2 ---- *)
+From CiwV.Inv Require Slot2.
+
+Theorem run_many_slotinv :
+  forall (cf : State2.config) (ds : list State2.draws)
+         (s s' : State2.sim),
+       Slot2.SlotInv cf s ->
+       Codec2.run_many cf s ds = State2.Ok s' -> Slot2.SlotInv cf s'.
+Proof. exact Slot2.run_many_slotinv. Qed.
+Print Assumptions run_many_slotinv.
+
+Theorem run_many_slotnext :
+  forall (cf : State2.config) (ds : list State2.draws)
+         (s s' : State2.sim),
+       Slot2.SlotInv cf s ->
+       Slot2.SlotNext cf s ->
+       Codec2.run_many cf s ds = State2.Ok s' -> Slot2.SlotNext cf s'.
+Proof. exact Slot2.run_many_slotnext. Qed.
+Print Assumptions run_many_slotnext.
+
+Theorem slots_follow_timetable :
+  forall (cf : State2.config) (ds : list State2.draws)
+         (s s1 : State2.sim),
+       Slot2.SlotInv cf s ->
+       Slot2.SlotNext cf s ->
+       Codec2.run_many cf s ds = State2.Ok s1 ->
+       Slot2.SlotInv cf s1 /\
+       Slot2.SlotNext cf s1 /\
+       (forall (j : BinNums.Z) (nd : State2.node) (sl : State2.slotcfg),
+        Engine2.nthZ (State2.nodes s1)
+          (BinInt.Z.sub j (BinNums.Zpos BinNums.xH)) = 
+        Some nd ->
+        Slot2.slot_of cf j = Some sl ->
+        let k := BinInt.Z.to_nat (State2.n_spos nd) in
+        State2.n_servers nd = nil /\
+        State2.n_c nd = Some BinNums.Z0 /\
+        BinInt.Z.le (State2.now s1) (Slot2.slotdate sl k) /\
+        (forall (d : State2.draws) (u : unit) (s2 : State2.sim),
+         Engine2.event_step cf
+           (RecordSet.set State2.dr (fun _ : State2.draws => d) s1) =
+         State2.Ok (u, s2) ->
+         (State2.next_active s1 = j ->
+          State2.n_next_type nd =
+          BinNums.Zpos (BinNums.xO (BinNums.xO BinNums.xH)) ->
+          State2.now s1 = Slot2.slotdate sl k /\
+          Slot2.at_node j
+            (fun nd2 : State2.node =>
+             State2.n_spos nd2 =
+             BinInt.Z.add (State2.n_spos nd) (BinNums.Zpos BinNums.xH) /\
+             BinInt.Z.le (State2.now s2) (Slot2.slotdate sl (S k))) s2) /\
+         (~
+          (State2.next_active s1 = j /\
+           State2.n_next_type nd =
+           BinNums.Zpos (BinNums.xO (BinNums.xO BinNums.xH))) ->
+          Slot2.at_node j
+            (fun nd2 : State2.node =>
+             State2.n_spos nd2 = State2.n_spos nd /\
+             BinInt.Z.le (State2.now s2) (Slot2.slotdate sl k)) s2))).
+Proof. exact Slot2.slots_follow_timetable. Qed.
+Print Assumptions slots_follow_timetable.
+
+(* the printed form of this statement does not re-parse (nat / Z scopes): it is the statement of Slot2.slot_event_starts, verbatim in coq/Inv/Slot2.v *)
+Theorem slot_event_starts : ltac:(let t := type of Slot2.slot_event_starts in exact t).
+Proof. exact Slot2.slot_event_starts. Qed.
+Print Assumptions slot_event_starts.
+
+Theorem capacitated_after_slot :
+  forall (cf : State2.config) (j : BinNums.Z) 
+         (s : State2.sim) (u : unit) (s' : State2.sim) 
+         (nd : State2.node) (sl : State2.slotcfg),
+       Slot2.Idx s ->
+       BinInt.Z.le (BinNums.Zpos BinNums.xH) j ->
+       Engine2.nthZ (State2.nodes s)
+         (BinInt.Z.sub j (BinNums.Zpos BinNums.xH)) = 
+       Some nd ->
+       Slot2.slot_of cf j = Some sl ->
+       BinInt.Z.eqb (State2.sl_pre sl)
+         (BinNums.Zpos (BinNums.xO (BinNums.xO BinNums.xH))) = false ->
+       State2.sl_cap sl = true ->
+       Engine2.slotted_service cf j s = State2.Ok (u, s') ->
+       let size := Slot2.slotsize sl (BinInt.Z.to_nat (State2.n_spos nd)) in
+       BinInt.Z.le BinNums.Z0 size ->
+       (State2.sl_pre sl = BinNums.Z0 -> BinInt.Z.le (State2.n_insvc nd) size) ->
+       BinInt.Z.le (BinInt.Z.sub (State2.n_insvc nd) size)
+         (BinInt.Z.of_nat (length (Slot2.in_service s nd))) ->
+       exists nd' : State2.node,
+         Engine2.nthZ (State2.nodes s')
+           (BinInt.Z.sub j (BinNums.Zpos BinNums.xH)) = 
+         Some nd' /\
+         State2.n_spos nd' =
+         BinInt.Z.add (State2.n_spos nd) (BinNums.Zpos BinNums.xH) /\
+         BinInt.Z.le (State2.n_insvc nd') size /\
+         (BinInt.Z.le (State2.n_insvc nd) size ->
+          BinInt.Z.le (State2.n_insvc nd) (State2.n_insvc nd')) /\
+         (BinInt.Z.lt size (State2.n_insvc nd) -> State2.n_insvc nd' = size).
+Proof. exact Slot2.capacitated_after_slot. Qed.
+Print Assumptions capacitated_after_slot.
+
+(* the printed form of this statement does not re-parse (nat / Z scopes): it is the statement of Slot2.uncapacitated_slot, verbatim in coq/Inv/Slot2.v *)
+Theorem uncapacitated_slot : ltac:(let t := type of Slot2.uncapacitated_slot in exact t).
+Proof. exact Slot2.uncapacitated_slot. Qed.
+Print Assumptions uncapacitated_slot.
+
+Theorem starts_only_in_slot :
+  forall (cf : State2.config) (J : BinNums.Z),
+       Slot2.scope_b cf J = true ->
+       forall (s : State2.sim) (u : unit) (s' : State2.sim),
+       Conserve2.WFx2 nil s ->
+       Slot2.SlotInv cf s ->
+       Slot2.slot_due_b J s = false ->
+       Engine2.event_step cf s = State2.Ok (u, s') ->
+       Conserve2.WFx2 nil s' /\
+       Slot2.SlotInv cf s' /\
+       (forall i t : BinNums.Z, Slot2.svc J s' i t -> Slot2.svc J s i t) /\
+       (forall nd nd' : State2.node,
+        Engine2.nthZ (State2.nodes s)
+          (BinInt.Z.sub J (BinNums.Zpos BinNums.xH)) = 
+        Some nd ->
+        Engine2.nthZ (State2.nodes s')
+          (BinInt.Z.sub J (BinNums.Zpos BinNums.xH)) = 
+        Some nd' -> State2.n_spos nd' = State2.n_spos nd).
+Proof. exact Slot2.starts_only_in_slot. Qed.
+Print Assumptions starts_only_in_slot.
+
+Theorem run_between_slots :
+  forall (cf : State2.config) (J : BinNums.Z),
+       Slot2.scope_b cf J = true ->
+       forall (ds : list State2.draws) (s s' : State2.sim),
+       Conserve2.WFx2 nil s ->
+       Slot2.SlotInv cf s ->
+       Slot2.run_between cf J s ds = State2.Ok s' ->
+       Codec2.run_many cf s ds = State2.Ok s' /\
+       Conserve2.WFx2 nil s' /\
+       Slot2.SlotInv cf s' /\
+       (forall i t : BinNums.Z, Slot2.svc J s' i t -> Slot2.svc J s i t) /\
+       (forall nd nd' : State2.node,
+        Engine2.nthZ (State2.nodes s)
+          (BinInt.Z.sub J (BinNums.Zpos BinNums.xH)) = 
+        Some nd ->
+        Engine2.nthZ (State2.nodes s')
+          (BinInt.Z.sub J (BinNums.Zpos BinNums.xH)) = 
+        Some nd' -> State2.n_spos nd' = State2.n_spos nd).
+Proof. exact Slot2.run_between_slots. Qed.
+Print Assumptions run_between_slots.
+
+Theorem slot_inv_b_sound :
+  forall (cf : State2.config) (s : State2.sim),
+       Slot2.slot_inv_b cf s = true -> Slot2.SlotInv cf s.
+Proof. exact Slot2.slot_inv_b_sound. Qed.
+Print Assumptions slot_inv_b_sound.
+
+Theorem slot_next_b_sound :
+  forall (cf : State2.config) (s : State2.sim),
+       Slot2.slot_next_b cf s = true -> Slot2.SlotNext cf s.
+Proof. exact Slot2.slot_next_b_sound. Qed.
+Print Assumptions slot_next_b_sound.
+
+(* the printed form of this statement does not re-parse (nat / Z scopes): it is the statement of Slot2.capacity_after_nonpreemptive_slot_refuted, verbatim in coq/Inv/Slot2.v *)
+Theorem capacity_after_nonpreemptive_slot_refuted : ltac:(let t := type of Slot2.capacity_after_nonpreemptive_slot_refuted in exact t).
+Proof. exact Slot2.capacity_after_nonpreemptive_slot_refuted. Qed.
+Print Assumptions capacity_after_nonpreemptive_slot_refuted.
